@@ -46,16 +46,22 @@ Definition sx_child (c : child) : sx :=
   SxL [sx_bytes (c_in c); sx_bytes (c_out c); SxZ (pr_proto (c_prop c)); SxZ (c_mode c); sx_list sx_ts (c_tsi c);
        sx_list sx_ts (c_tsr c); sx_list sx_tr (pr_trs (c_prop c)); SxZ (c_life c)].
 Definition sx_child_id (c : child) : sx := SxL [sx_bytes (c_in c); sx_bytes (c_out c)].
+Definition ts_port (t : ts) : Z := if Z.eqb (ts_sport t) 0 && Z.eqb (ts_eport t) 65535 then 0 else ts_eport t.
 Definition sx_ksa (k : ksa) : sx :=
-  SxL [sx_bytes (k_spi k); SxZ (k_src k); SxZ (k_dst k); SxZ (k_proto k); SxZ (k_mode k); sx_ts (k_sel_src k);
-       sx_ts (k_sel_dst k); sx_list sx_tr (pr_trs (k_prop k)); sx_bytes (k_enc k); sx_bytes (k_auth k); SxZ (k_life k)].
+  SxL [sx_bytes (k_spi k); SxZ (k_src k); SxZ (k_dst k); SxZ (k_proto k); SxZ (k_mode k); SxZ (ts_proto (k_sel_src k));
+       SxZ (ts_port (k_sel_src k)); SxZ (ts_port (k_sel_dst k)); sx_bytes (k_enc k); sx_bytes (k_auth k); SxZ (k_life k)].
 Definition sx_kop (k : kop) : sx :=
   match k with
   | K_add s ok => SxL [SxZ 0; sx_ksa s; sx_bool ok]
   | K_del d p spi ok => SxL [SxZ 1; SxZ d; SxZ p; sx_bytes spi; sx_bool ok]
   end.
+(** self.request keeps references to shared, mutable Proposal objects of the configuration (their SPI is rewritten
+    by every later request of the same connection): the SPIs inside the stored request are not compared; what was
+    SENT is compared through the reply and request_data. *)
+Definition blank_spi (p : payload) : payload :=
+  match p with P_SA ps => P_SA (map (fun x => x <| pr_spi := [] |>) ps) | _ => p end.
 Definition sx_req (r : option (Z * list payload)) : sx :=
-  match r with None => SxNone | Some (e, ps) => SxL [SxZ e; sx_list sx_payload ps] end.
+  match r with None => SxNone | Some (e, ps) => SxL [SxZ e; sx_list sx_payload (map blank_spi ps)] end.
 Definition sx_core (c : core) : sx :=
   SxL [SxZ (st c); sx_bytes (my_spi_b c); sx_bytes (peer_spi_b c); sx_opt sx_kr (kr c);
        sx_opt (fun p => sx_list sx_tr (pr_trs p)) (chosen c); sx_list sx_child (children c);
@@ -262,6 +268,11 @@ Section Run.
                 | 9, [csec] =>                            (* controller arms the cookie *)
                     let s' := with_inner P s ((inner P s) <| co := (co (inner P s)) <| cookie_secret := Some (bytes_of csec) |> |>) in
                     (put_sa id s' tbl, SxL [sx_state s'; SxNone; SxL []])
+                | 10, [d; r; dl] =>                       (* the scenario driver wrote the timers of the real object *)
+                    let s' := mk_sa P (inner P s) (is_init P s) (my_spi P s) (my_id P s) (peer_id P s) (last_resp P s)
+                                    (req_data P s) (rt_at P s) (rt_n P s) (Z_of d) (Z_of r) (Z_of dl) (dpd_cfg P s)
+                                    (pending P s) in
+                    (put_sa id s' tbl, SxL [sx_state s'; SxNone; SxL []])
                 | _, _ => (tbl, SxS "BAD-CALL")
                 end
             end
@@ -280,5 +291,21 @@ End Run.
 Definition run_hdl (x : sx) : sx :=
   match x with
   | SxL [SxL confs; tables; SxL calls] => SxL (steps (env_of tables) (map conf_of confs) [] calls)
+  | _ => bad_input
+  end.
+
+(** [run_hdl_check (SxL [input; SxL expected])] = SxL [] when every call agrees, otherwise the index of the first
+    call that differs and the model's output for it. *)
+Fixpoint first_mismatch (outs expected : list sx) (i : Z) : sx :=
+  match outs, expected with
+  | [], [] => SxL []
+  | o :: outs', e :: exp' => if sx_eqb o e then first_mismatch outs' exp' (i + 1) else SxL [SxZ i; o]
+  | o :: _, [] => SxL [SxZ i; o]
+  | [], _ :: _ => SxL [SxZ i; SxS "MODEL-STOPPED"]
+  end.
+Definition run_hdl_check (x : sx) : sx :=
+  match x with
+  | SxL [inp; SxL expected] =>
+      match run_hdl inp with SxL outs => first_mismatch outs expected 0 | o => o end
   | _ => bad_input
   end.
